@@ -173,11 +173,29 @@ fn non_ids() -> Vec<String> {
     out.into_iter().filter(|s| !d.by_id.contains_key(s)).collect()
 }
 
+/// the operation of the history / free-running checks: look-up, Zinc and Hayson decoding of a unit id
+fn unit_probe_op(id: &String) -> String {
+    let u = get_unit(id).map(|u| u as *const Unit as usize);
+    let t = format!("[5{id},{{a:7{id} b}}]");
+    let z = from_str(&t).map(|v| format!("{v:?}")).map_err(|e| e.to_string());
+    let j = serde_json::from_str::<Value>(&format!("{{\"_kind\":\"number\",\"val\":5,\"unit\":{}}}", serde_json::to_string(id).unwrap())).map(|v| format!("{v:?}")).map_err(|e| e.to_string());
+    format!("{u:?}|{z:?}|{j:?}")
+}
+
+fn unit_probe_pool() -> Vec<String> {
+    let mut ids: Vec<String> = db().by_id.keys().cloned().collect();
+    ids.sort();
+    ids.into_iter().step_by(5).collect()
+}
+
 pub fn run(tier: Tier) -> i32 {
     let mut run = Run::new("C15", tier, "exploration");
     run.rule = "all units of units.txt (parsed by the harness) x all their ids: pointer-identical lookup, table agreement, Zinc text `m id` in 6 spellings; 16 magnitudes through both codecs — Zinc, Hayson to_string/from_str, to_value/from_value, the member-sorted text, the typed Number — and in five positions (list element, dict value followed by another tag, grid meta, column meta, last cell of a row); every ordered pair of identifiers as two numbers in one document (list and dict); two different database entries never compare equal (as units or inside Numbers); every non-id string (length<=3 over the unit alphabet, every 1-edit of an id; every id with any one character replaced by — or an end extended with — each of ~480 characters of the Latin-1, Greek, super/subscript, letterlike and full-width blocks) must not be found; non-trivial = distinct id / non-id string".into();
     run.assume("unit-gen/units.txt is the unit database of record");
     crate::engine::quiet_panics();
+    if super::common::probe_first(&mut run, "unit-lookup", &unit_probe_pool(), &unit_probe_op, &|id: &String| json!(id)) {
+        return run.finish(&replay);
+    }
     let d = db();
     if !d.duplicate_ids.is_empty() {
         run.stats.fail("duplicate-id-in-database", json!({"ids": d.duplicate_ids}), format!("ids naming two units: {:?}", d.duplicate_ids));
@@ -306,6 +324,9 @@ pub fn run(tier: Tier) -> i32 {
 }
 
 pub fn replay(case: &J) -> Verdict {
+    if case["free_running"] == "unit-lookup" {
+        return super::common::replay_probe(&unit_probe_pool(), &unit_probe_op, &|id: &String| json!(id));
+    }
     let mut l = Local::new();
     if case["stage"] == "two-units-in-one-document" || case["stage"] == "distinct-units-compare-equal" {
         let (a, b) = (case["id"].as_str().unwrap_or(""), case["other"].as_str().unwrap_or(""));
